@@ -134,6 +134,8 @@ var props = map[string]*propDef{
 		Harnesses: []harnessDef{
 			{Name: "proto.VerifC06GenLeaves", Must: mustC06, Cfg: c06cfg, Quick: map[string]int{"maxrows": 2, "inlen": 10}, Thorough: map[string]int{"maxrows": 3, "inlen": 16}},
 			{Name: "proto.VerifC06PlainLeaves", Must: mustC06, Cfg: c06cfg, Quick: map[string]int{"maxrows": 2, "inlen": 8}, Thorough: map[string]int{"maxrows": 3, "inlen": 12}},
+			// String alone with room for a one-byte row followed by a 9-byte length varint (offset arithmetic at 2^63)
+			{Name: "proto.VerifC06PlainLeaves", Must: mustC06, Cfg: c06cfg, Quick: map[string]int{"maxrows": 2, "inlen": 12, "type": 0}, Thorough: map[string]int{"maxrows": 3, "inlen": 14, "type": 0}},
 			{Name: "proto.VerifC06Composites", Must: mustC06, Cfg: c06cfg, Quick: map[string]int{"maxrows": 2, "inlen": 10}, Thorough: map[string]int{"maxrows": 2, "inlen": 14}},
 			{Name: "proto.VerifC06Composites", Must: mustC06, Cfg: c06cfg6, Quick: map[string]int{"maxrows": 2, "inlen": 18, "type": 1}, Thorough: map[string]int{"maxrows": 2, "inlen": 20, "type": 1}},
 			{Name: "proto.VerifC06Composites", Must: mustC06, Cfg: c06cfg6, Quick: map[string]int{"maxrows": 2, "inlen": 24, "type": 0}, Thorough: map[string]int{"maxrows": 2, "inlen": 32, "type": 0}},
@@ -182,7 +184,8 @@ var props = map[string]*propDef{
 			{Name: "proto.VerifC19Relation", Quick: map[string]int{"maxlen": 3}, Thorough: map[string]int{"maxlen": 5}},
 			{Name: "proto.VerifC19InferTotal", Quick: map[string]int{"maxlen": 4}, Thorough: map[string]int{"maxlen": 6}},
 			{Name: "proto.VerifC19Templates"},
-			{Name: "proto.VerifC19RelationVocab", Quick: map[string]int{"maxparam": 1}, Thorough: map[string]int{"maxparam": 2}},
+			{Name: "proto.VerifC19RelationVocab", Quick: map[string]int{"maxparam": 1}, Thorough: map[string]int{"maxparam": 1}},
+			{Name: "proto.VerifC19RelationVocab", Quick: map[string]int{"maxparam": 2, "samebase": 1}, Thorough: map[string]int{"maxparam": 4, "samebase": 1}},
 		},
 	},
 	"C18": {
